@@ -779,8 +779,19 @@ def _run_program(ctx, prog, lb, plan, stats, judge_cases, judge_meta, burst_case
                 rep = dict(base)
                 rep.update({"method": calls[i].m["name"], "call": req["calls"][i], "burst": req["burst"], "observed": b,
                             "alone": alone, "idl": L.render(p)})
+                sig = None
+                if proto == "json":
+                    # the known finding of Thrift's JSON reader hits a call or not depending on where its special
+                    # doubles fall in the stream (the burst's extra header shifts them): alone and burst may differ
+                    txts = b""
+                    for side in (b, alone):
+                        txts += bytes.fromhex(((side.get("client") or {}).get("msg")) or "")
+                        txts += b"".join(bytes.fromhex(x) for x in side.get("replies") or [])
+                    if THRIFT_JSON_SPLIT.search(txts):
+                        sig = {"class": "thrift_json_special_double_split_at_4096"}
+                        stats["known/thrift_json_special_double_split"] += 1
                 ctx.violation("C03: %s over %s/%s with %d calls in flight through one client: %s" % (
-                    calls[i].m["name"], transport, proto, len(req["burst"]), "; ".join(problems)), rep)
+                    calls[i].m["name"], transport, proto, len(req["burst"]), "; ".join(problems)), rep, signature=sig)
             else:
                 stats["burst_ok"] += 1
         # --- the burst on the model: one case per round for Judge/JGenCallConc.v (the composition of the registry model
@@ -795,6 +806,12 @@ def _run_program(ctx, prog, lb, plan, stats, judge_cases, judge_meta, burst_case
                   b["index"] < len(resp["calls"]) and "client" in resp["calls"][b["index"]]]
             if len(bs) < 2:
                 continue
+            if proto == "json":
+                txts = b"".join(bytes.fromhex(x) for x in fr.get("replies") or [])
+                txts += b"".join(bytes.fromhex((b_.get("client") or {}).get("msg") or "") for b_ in bs)
+                if THRIFT_JSON_SPLIT.search(txts):
+                    stats["burst_rounds_with_known_thrift_json_finding"] += 1
+                    continue    # the round holds a call hit by the known finding of Thrift's JSON reader (reported above)
             by_op_req, by_op_rep = {}, collections.defaultdict(list)
             for x in fr.get("requests") or []:
                 fb = bytes.fromhex(x)
